@@ -160,6 +160,9 @@ def _read_parameter(
 
     annotation = _determine_param_annotation(docstring, name, directive_type, parsed_values)
     default = _determine_param_default(docstring, name)
+    if directive_type is not None:
+        # Remember that the docstring itself gave a type, for "type" directives coming later.
+        parsed_values.param_types.setdefault(name, directive_type)
 
     parsed_values.parameters[name] = DocstringParameter(
         name=name,
@@ -227,13 +230,15 @@ def _read_parameter_type(
         docstring_warning(docstring, 0, f"Failed to get parameter name from '{parsed_directive.line}'")
         return parsed_directive.next_index
 
+    already_typed = param_name in parsed_values.param_types
     parsed_values.param_types[param_name] = param_type
     param = parsed_values.parameters.get(param_name)
     if param is not None:
-        if param.annotation is None:
-            param.annotation = param_type
-        else:
+        if already_typed:
             docstring_warning(docstring, 0, f"Duplicate parameter information for '{param_name}'")
+        else:
+            # The type field takes precedence over the signature annotation, wherever it is written.
+            param.annotation = param_type
     return parsed_directive.next_index
 
 
@@ -298,13 +303,15 @@ def _read_attribute_type(
         docstring_warning(docstring, 0, f"Failed to get attribute name from '{parsed_directive.line}'")
         return parsed_directive.next_index
 
+    already_typed = attribute_name in parsed_values.attribute_types
     parsed_values.attribute_types[attribute_name] = attribute_type
     attribute = parsed_values.attributes.get(attribute_name)
     if attribute is not None:
-        if attribute.annotation is None:
-            attribute.annotation = attribute_type
-        else:
+        if already_typed:
             docstring_warning(docstring, 0, f"Duplicate attribute information for '{attribute_name}'")
+        else:
+            # The type field takes precedence over the annotation found in the parent, wherever it is written.
+            attribute.annotation = attribute_type
     return parsed_directive.next_index
 
 
